@@ -12,6 +12,7 @@ it matters the distance between the stored value `x` and the exact serial is a h
 import XlModel.Lemmas.DateDecode
 import XlModel.Lemmas.DateCount
 import XlModel.Lemmas.DateOrder
+import XlModel.Lemmas.DateFloat
 
 namespace XlModel.Props.C19
 open XlModel XlModel.Date XlModel.Date.Impl
@@ -487,6 +488,73 @@ theorem serial_roundtrip_1904 (c : Civil) (off : Int) (x : Rat) (hw : ValidWall 
     injection hdate with e1 e23
     injection e23 with e2 e3
     rw [hc, e1, e2, e3, hz.2.1, hz.2.2.1, hz.2.2.2]
+
+/-! ## float layer: the error of the stored value is derived, not assumed -/
+
+/-- "float rounding of the day fraction": `Impl.timeToExcelTimeF` spells out every float64 operation
+of `timeToExcelTime` (int→float conversions, the two divisions, three additions, the chunk
+accumulator) and is compared bit for bit with the Go function on every `encf` transcript line.
+For EVERY rounding function that obeys the standard model |rnd q − q| ≤ 2⁻⁵³·|q| and is exact on
+integers up to 2⁵³ (fields of `Rounding`, no axiom), every instant with serial below 2 958 466
+(10000-01-01; < 2²²) and both date systems, its result is within `encTol` of the exact serial -/
+theorem encode_error (R : Rounding) (t : Int) (date1904 : Bool)
+    (hN : timeToExcelTimeNs t date1904 < 2958466 * 86400000000000) :
+    |timeToExcelTimeF (ratOps R) t date1904 - timeToExcelTime t date1904|
+      ≤ encTol (timeToExcelTimeNs t date1904) :=
+  encode_error_bound R t date1904 hN
+
+/-- the two laws are satisfiable (exact arithmetic), and then the float-level function is the exact serial
+up to `encTol` trivially; so `encode_error` is not vacuous -/
+theorem rounding_satisfiable : ∃ R : Rounding, ∀ q : Rat, R.rnd q = q := ⟨Rounding.exact, fun _ => rfl⟩
+
+/-- the measured/derived encoder bound is inside the decoder's tolerance on both paths -/
+theorem encTol_le_decTol (n : Int) : encTol n ≤ decTol (n / 86400000000000) := by
+  have hnd : nsPerDay = 86400000000000 := by decide
+  unfold encTol decTol
+  rw [hnd]
+  by_cases h1 : n < 64 * 86400000000000
+  · rw [if_pos h1]
+    split
+    · rw [pow2_40, pow2_38]; norm_num
+    · rw [pow2_40, pow2_18]; norm_num
+  · rw [if_neg h1, if_neg (by omega), pow2_30, pow2_18]; norm_num
+
+/-- round trip with the float error DERIVED (1900 system, the whole property range 1900-03-01 …
+9999-12-31, every clock reading and zone offset): under the standard model of float64 for the
+encoder, the value `timeToExcelTime` computes reads back as exactly the original wall clock.
+(The decoder is the exact-arithmetic model; its own float roundings stay measured, see design.) -/
+theorem serial_roundtrip_stdmodel_1900 (R : Rounding) (c : Civil) (off : Int) (hw : ValidWall c)
+    (hr : -25508 ≤ daysFromCivil c.y c.m c.d) (hr2 : daysFromCivil c.y c.m c.d ≤ 2932896) :
+    setCellTime (instantOf c - off * nsPerSec) off false = .num (timeToExcelTimeNs (instantOf c) false) ∧
+    (excelDateToTime (timeToExcelTimeF (ratOps R) (instantOf c) false) false).map civilOf = .ok c := by
+  obtain ⟨hv, h0, h1, m0, m1, s0, s1, hns0⟩ := hw
+  have hc : c = { y := c.y, m := c.m, d := c.d, h := c.h, mi := c.mi, s := c.s, ns := 0 } := by
+    cases c; simp only [] at hns0; subst hns0; rfl
+  have hclosed := serial_daycount_closed c.y c.m c.d c.h c.mi c.s false
+    (by simp only [Bool.false_eq_true, if_false]; exact hr) h0 m0 s0
+  rw [← hc] at hclosed
+  simp only [Bool.false_eq_true, if_false] at hclosed
+  have hN : timeToExcelTimeNs (instantOf c) false < 2958466 * 86400000000000 := by rw [hclosed]; omega
+  have he := encode_error R (instantOf c) false hN
+  exact serial_roundtrip_1900 c off _ ⟨hv, h0, h1, m0, m1, s0, s1, hns0⟩ hr (le_trans he (encTol_le_decTol _))
+
+/-- the same in the 1904 system (1904-01-01 … 9999-12-31), with the one exception stated exactly -/
+theorem serial_roundtrip_stdmodel_1904 (R : Rounding) (c : Civil) (off : Int) (hw : ValidWall c)
+    (hr : -24107 ≤ daysFromCivil c.y c.m c.d) (hr2 : daysFromCivil c.y c.m c.d ≤ 2932896) :
+    (c = { y := 1904, m := 1, d := 1, h := 0, mi := 0, s := 0, ns := 0 } ∧
+      setCellTime (instantOf c - off * nsPerSec) off true = .text) ∨
+    (setCellTime (instantOf c - off * nsPerSec) off true = .num (timeToExcelTimeNs (instantOf c) true) ∧
+      (excelDateToTime (timeToExcelTimeF (ratOps R) (instantOf c) true) true).map civilOf = .ok c) := by
+  obtain ⟨hv, h0, h1, m0, m1, s0, s1, hns0⟩ := hw
+  have hc : c = { y := c.y, m := c.m, d := c.d, h := c.h, mi := c.mi, s := c.s, ns := 0 } := by
+    cases c; simp only [] at hns0; subst hns0; rfl
+  have hclosed := serial_daycount_closed c.y c.m c.d c.h c.mi c.s true
+    (by simp only [if_true]; exact hr) h0 m0 s0
+  rw [← hc] at hclosed
+  simp only [if_true] at hclosed
+  have hN : timeToExcelTimeNs (instantOf c) true < 2958466 * 86400000000000 := by rw [hclosed]; omega
+  have he := encode_error R (instantOf c) true hN
+  exact serial_roundtrip_1904 c off _ ⟨hv, h0, h1, m0, m1, s0, s1, hns0⟩ hr (le_trans he (encTol_le_decTol _))
 
 /-- FINDING (known_findings.d key `enc:zero-serial-stored-as-text`): in the 1904 system the first
 instant of the range, 1904-01-01T00:00:00 (serial 0), read in any zone, is stored as text, not as a
